@@ -34,28 +34,30 @@ ASSUMPTIONS = [
     "non-negative sizes, int base in {2, 8, 10, 16})",
 ]
 NSHARDS = {"quick": 16, "thorough": 16}
-BUDGET_S = {"quick": 20, "thorough": 600}
+BUDGET_S = {"quick": 12, "thorough": 600}
+# the time box always lets 300 random cases per shard through, so the quick
+# floors sit just under what grid + 16 x 300 cases produce
 FLOORS = {
-    "quick": {"evaluations": 45000, "distinct": 9000,
-              "counters": {"calls:call": 11000, "calls:tmpl": 11000, "calls:acall": 11000,
-                           "calls:atmpl": 11000, "oracle_evaluations": 11000,
-                           "text_form_checks": 7000, "grid_cases": 1800,
-                           "int_float_unconvertible_inputs": 1000, "truncate:truncated": 300,
-                           "truncate:kept_within_leeway": 80, "wordwrap:multi_line": 450,
-                           "wordwrap:long_word_broken": 250, "indent:multi_line": 400,
-                           "string_filter_changed_text": 4000,
-                           "filters_exercised_min_cases": 500}},
-    "thorough": {"evaluations": 1200000, "distinct": 250000,
-                 "counters": {"calls:call": 300000, "calls:tmpl": 300000, "calls:acall": 300000,
-                              "calls:atmpl": 300000, "oracle_evaluations": 300000,
-                              "text_form_checks": 200000, "grid_cases": 1800,
-                              "int_float_unconvertible_inputs": 20000,
-                              "truncate:truncated": 9000, "truncate:kept_within_leeway": 2500,
-                              "wordwrap:multi_line": 14000, "wordwrap:long_word_broken": 7000,
-                              "indent:multi_line": 12000, "string_filter_changed_text": 100000,
-                              "filters_exercised_min_cases": 16000}},
+    "quick": {"evaluations": 25000, "distinct": 5000,
+              "counters": {"calls:call": 6000, "calls:tmpl": 6000, "calls:acall": 6000,
+                           "calls:atmpl": 6000, "oracle_evaluations": 6000,
+                           "text_form_checks": 3000, "grid_cases": 1800,
+                           "int_float_unconvertible_inputs": 500, "truncate:truncated": 60,
+                           "truncate:kept_within_leeway": 15, "wordwrap:multi_line": 60,
+                           "wordwrap:long_word_broken": 30, "indent:multi_line": 50,
+                           "string_filter_changed_text": 500,
+                           "filters_exercised_min_cases": 150}},
+    "thorough": {"evaluations": 600000, "distinct": 120000,
+                 "counters": {"calls:call": 150000, "calls:tmpl": 150000, "calls:acall": 150000,
+                              "calls:atmpl": 150000, "oracle_evaluations": 150000,
+                              "text_form_checks": 100000, "grid_cases": 1800,
+                              "int_float_unconvertible_inputs": 10000,
+                              "truncate:truncated": 4500, "truncate:kept_within_leeway": 1200,
+                              "wordwrap:multi_line": 7000, "wordwrap:long_word_broken": 3500,
+                              "indent:multi_line": 6000, "string_filter_changed_text": 50000,
+                              "filters_exercised_min_cases": 8000}},
 }
-N_RANDOM = {"quick": 3000, "thorough": 80000}
+N_RANDOM = {"quick": 2500, "thorough": 80000}
 FILTERS = SP.ALL_FILTERS
 
 # --------------------------------------------------------------- pools
